@@ -11,7 +11,7 @@ from ..pathgen import PathGen
 from ..specgen import SpecGen, normalise_cond
 from ..describe import describe_cond, Inert0
 from ..ruleterms import enc_arg1, Tags
-from ..terms import valida, Leaf
+from ..terms import valida, Leaf, Bin
 from ..pathterms import PathT
 
 PROP = "C09"
@@ -139,8 +139,20 @@ def run(tier, seed, model_ok, spec_ok, replay=None):
                 m = {k: g.r.choice([1, "x", "/tmp", ["a"], None, True]) for k in keys}
                 kk = g.r.random()
                 l.args[0] = [m, g.scalar()] if l.method in ("in_", "not_in") or kk < 0.4 else ({"k": m, "j": 1} if kk < 0.7 else m)
+        long_list = None
+        if g.r.random() < 0.07:
+            # a LONG and / or / xor list (4-7 operands): the list means the left-to-right chain  c1 op c2 op ... op cn
+            op = g.r.choice(["and", "or", "xor"])
+            kids = [cg.tree(doc, depth=g.r.choice([0, 0, 1]), null_p=0.0) for _ in range(g.r.randint(4, 7))]
+            t = kids[0]
+            for kx in kids[1:]:
+                t = Bin(op, t, kx)
+            long_list = (op, kids)
         normalise_cond(t)   # specs are JSON/YAML-like: no tuples, named types only (also inside data-path arguments)
         spec = sg.cond_spec(t)
+        if long_list is not None and spec is not None:
+            parts_ = [sg.cond_spec(kx) for kx in long_list[1]]
+            spec = {long_list[0]: parts_} if all(x is not None for x in parts_) else None
         if spec is None:
             skipped += 1
             continue
